@@ -59,6 +59,12 @@ func (e *kvElection) heartbeatLoop(ctx context.Context) {
 				}
 			}
 
+			// the health check may have taken long (a checker can ignore its context): the term
+			// may be over, and e.revision may by now describe another instance's record
+			if ctx.Err() != nil || !e.IsLeader() {
+				return
+			}
+
 			currentRev := e.revision.Load()
 
 			token := e.Token()
